@@ -33,11 +33,10 @@ theorem present_iff_witness (h : OrswotSpec.Rep K s) (m : M) :
     | some mc => rfl
 
 /-- **membership**: `m` is read iff the replica knows an add of `m` that no known remove of `m` covers -/
-theorem member_iff (wf : LogWF U) (h : orswotSys.Reach U s K) (m : M) :
+theorem member_iff_of_rep (r : OrswotSpec.Rep K s) (m : M) :
     m ∈ s.read.val ↔
       ∃ d ms, OrswotOp.add d ms ∈ K ∧ m ∈ ms ∧ 0 < d.counter ∧
         ∀ c ms', OrswotOp.rm c ms' ∈ K → m ∈ ms' → c.get d.actor < d.counter := by
-  have r := rep wf h
   have hread : m ∈ s.read.val ↔ (s.entries.get? m).isSome = true := by
     simp only [Orswot.read, List.mem_map]
     constructor
@@ -69,6 +68,12 @@ theorem member_iff (wf : LogWF U) (h : orswotSys.Reach U s K) (m : M) :
         have := hcov c ms' hrm hm'
         omega
     simp only [this, if_true]; omega
+
+theorem member_iff (wf : LogWF U) (h : orswotSys.Reach U s K) (m : M) :
+    m ∈ s.read.val ↔
+      ∃ d ms, OrswotOp.add d ms ∈ K ∧ m ∈ ms ∧ 0 < d.counter ∧
+        ∀ c ms', OrswotOp.rm c ms' ∈ K → m ∈ ms' → c.get d.actor < d.counter :=
+  member_iff_of_rep (rep wf h) m
 
 /-- `contains(m)` agrees with `read` -/
 theorem contains_val (m : M) : (s.contains m).val = true ↔ m ∈ s.read.val := by
